@@ -89,7 +89,7 @@ def r81(db, ctx):
             return True           # a whole row (fixed-size array of C elements)
         if c[0] == 'sub' and c[2] == ('k', 0):
             hi = c[1]
-            if common.is_usize_const(hi):
+            if common.is_usize_const(hi, 'K'):
                 return True
             mm_ = m(('call~', 'DenseMatrix::columns', ('$m',)), hi)
             return mm_ is not None
